@@ -5,7 +5,8 @@ Executable model, core Lean only.
 
 * **Impl**: how the code *as it is* resolves and propagates the OS
   (`vm/vm.go`: `getOS`, `initContext`, `Clone`, `cloneCallAsync`, `cloneCallSync`, `importModule`,
-  the entry points `Run`/`RunCode`/`Call`; `os/os.go`: `GetDefaultOS`), parameterised by the
+  the entry points `Run`/`RunCode`/`Call`; `risor.go`, `risor_config.go`: `Eval`/`EvalCode`/`Call`
+  with `WithVM` and `Config.VMOpts`; `os/os.go`: `GetDefaultOS`), parameterised by the
   structural `Facts` the extractor re-reads from the source on every run, and which OS-interface
   calls every script-visible operation makes (`Op.calls`, reviewed by reading `modules/os`,
   `modules/filepath`, `modules/fmt`, `object/file*.go`).
@@ -616,6 +617,14 @@ structure Facts where
       never calls the resolver again: `os.stdin`, `os.stdout`, `os.stderr` are such attributes of
       the `os` module object, which all runs and clones of a VM share -/
   dynAttrCaches : Bool
+  /-- `Config.VMOpts` (risor_config.go) hands `vm.WithOS(cfg.os)` to the machine only when an OS was
+      given with `risor.WithOS` (`if cfg.os != nil { … }`): an evaluation that names no OS passes
+      no OS option at all -/
+  cfgOSOnlyIfSet : Bool
+  /-- `risor.Eval` / `EvalCode` / `Call` give `cfg.VMOpts()` to `vm.RunCodeOnVM` / `RunCode` of the
+      machine named with `risor.WithVM`; `RunCode` applies the options to that machine
+      (`applyOptions`) before it evaluates; the option `vm.WithOS(o)` assigns `vm.os = o` -/
+  apiAppliesOpts : Bool
   deriving DecidableEq, Repr
 
 /-- the facts as reviewed at the pinned commit (the memoisation of dynamic attributes is a defect
@@ -623,7 +632,7 @@ structure Facts where
 def codeFacts : Facts :=
   { getOSOrder := [.ctx, .vmField, .simple], initInstalls := true, entryInits := true,
     cloneCopiesOS := true, spawnInits := true, cloneCallInits := true, importSameCtx := true,
-    moduleFromCtx := true, dynAttrCaches := true }
+    moduleFromCtx := true, dynAttrCaches := true, cfgOSOnlyIfSet := true, apiAppliesOpts := true }
 
 /-- the same code with dynamic attributes resolved on every access -/
 def fixedFacts : Facts := { codeFacts with dynAttrCaches := false }
@@ -662,6 +671,19 @@ def initContext (F : Facts) (vm : VM) (ctx : Ctx) : Ctx :=
 /-- `VirtualMachine.Clone` (globals, hence `gf`, are shared) -/
 def clone (F : Facts) (vm : VM) : VM :=
   { os := if F.cloneCopiesOS then vm.os else none, gf := vm.gf }
+
+/-- what an evaluation through risor's top-level API (`risor.Eval` / `EvalCode` / `Call` with
+    `risor.WithVM(vm)` and, when `o` is present, `risor.WithOS(o)`) does to the machine's `os` field
+    before the code runs: `Config.VMOpts` turns the configuration into VM options and `RunCode`
+    applies them to the *existing* machine.  With the code as it is an evaluation that names no OS
+    leaves the field alone; were the option passed unconditionally, the absent OS would overwrite
+    the one the machine was built with. -/
+def applyCfg (F : Facts) (vm : VM) (o : Option OSId) : VM :=
+  if F.apiAppliesOpts then
+    match o with
+    | some x => { vm with os := some x }
+    | none => if F.cfgOSOnlyIfSet then vm else { vm with os := none }
+  else vm
 
 /-- the OS a module function obtains from the context it is called with (`os.GetDefaultOS`) -/
 def builtinOS (F : Facts) (ctx : Ctx) : OSId :=
@@ -787,6 +809,21 @@ inductive Ev where
   | root
   /-- `vm.RunCode(ctx, main, vm.WithOS(o))` -/
   | runWith (o : OSId) (c : Option OSId)
+  /-- `risor.EvalCode(ctx, main, risor.WithVM(vm), …)` (equally `risor.Eval`), with
+      `risor.WithOS(o)` among the options when `o` is present: the top-level code runs on the
+      *existing* machine after `Config.VMOpts()` has been applied to it -/
+  | evalWith (o : Option OSId) (c : Option OSId)
+  /-- `risor.Call(ctx, main, "entry", nil, risor.WithVM(vm), …)`, with `risor.WithOS(o)` when `o`
+      is present: the top-level code, then `entry()`, both on the existing machine -/
+  | apiCall (o : Option OSId) (c : Option OSId)
+  /-- Go code of the host fires a script callback *later and with a context of its own*: it kept
+      the clone-call function (`object.GetCloneCallFunc`, "safe to be called from a different
+      goroutine") that a builtin received during an earlier top-level run of the current VM, and
+      now calls `entry` through it with a context that does not derive from any evaluation
+      context (`r.Context()` of an http request, a scheduler's context, `context.Background()`);
+      `c` is the OS that context carries, if any.  `cloneCallSync` clones the VM and calls the
+      function under `clone.initContext(ctx)`. -/
+  | callback (c : Option OSId)
   deriving DecidableEq, Repr
 
 /-- a script: the program `body` is evaluated by the top-level code and again by every call of
@@ -810,6 +847,11 @@ def entryCtx (F : Facts) (vm : VM) (c : Option OSId) : Ctx :=
   if F.entryInits then initContext F vm { os := c } else { os := c }
 
 def openGF : Call := ⟨.open, ["$gf"]⟩
+
+/-- the context a function runs under when Go code calls it through the clone-call function of
+    `vm` with the context `{ os := c }` of its own: `cloneCallSync` -/
+def foreignCtx (F : Facts) (vm : VM) (c : Option OSId) : Ctx :=
+  if F.cloneCallInits then initContext F (clone F vm) { os := c } else { os := c }
 
 /-- top-level run of the script on VM `vm` with host context OS `c` -/
 def runTop (inv : List FnEntry) (F : Facts) (sc : Script) (vm : VM) (c : Option OSId) (cache : Cache) :
@@ -839,6 +881,16 @@ def step (inv : List FnEntry) (F : Facts) (sc : Script) (s : HState) : Ev → HS
     let vm0 := { s.vm with os := some o }
     let r := runTop inv F sc vm0 c s.cache
     ({ s.setVM r.1 with cache := r.2.2 }, some r.2.1)
+  | .evalWith o c =>
+    let r := runTop inv F sc (applyCfg F s.vm o) c s.cache
+    ({ s.setVM r.1 with cache := r.2.2 }, some r.2.1)
+  | .apiCall o c =>
+    let r := runTop inv F sc (applyCfg F s.vm o) c s.cache
+    let r2 := exec inv F r.1 (entryCtx F r.1 c) r.2.2 sc.body
+    ({ s.setVM r.1 with cache := r2.2 }, some (r.2.1 ++ r2.1))
+  | .callback c =>
+    let r := exec inv F (clone F s.vm) (foreignCtx F s.vm c) s.cache sc.body
+    ({ s with cache := r.2 }, some r.1)
 
 def runHist (inv : List FnEntry) (F : Facts) (sc : Script) : HState → List Ev → List (List Obs)
   | _, [] => []
@@ -892,6 +944,18 @@ def specStep (sc : Script) (s : SpecState) : Ev → SpecState × Option (List OS
     let acc := suppliedFor v0 c
     let v' := if sc.pre then { v0 with gfOK := !acc.isEmpty } else v0
     ({ s with pool := s.pool.set s.cur v' }, some (acc, v'.gfOK))
+  | .evalWith o c | .apiCall o c =>
+    -- an evaluation that names an OS supplies it to the machine from now on; one that names
+    -- none leaves what the host supplied for the machine earlier in force
+    let v0 := match o with
+      | some x => { s.vm with supplied := some x }
+      | none => s.vm
+    let acc := suppliedFor v0 c
+    let v' := if sc.pre then { v0 with gfOK := !acc.isEmpty } else v0
+    ({ s with pool := s.pool.set s.cur v' }, some (acc, v'.gfOK))
+  -- a callback fired by the host's Go code: supplied are the OS of the machine (the clone the
+  -- callback runs in inherits it) and the OS in the context the host fires it with
+  | .callback c => (s, some (suppliedFor s.vm c, s.vm.gfOK))
 
 /-- for every executing event: the set of implementations the host supplied for it, and whether
     the property applies to it at all (something was supplied, and the file in `gf`, if used,
